@@ -324,22 +324,20 @@ static void dump(int kind, int full)
 static int cmp_bt(const void * a, const void * b, void * p)
 {
     h_priv_check(p, 1);
-    return (((const struct bte *)a)->key > ((const struct bte *)b)->key)
-           - (((const struct bte *)a)->key < ((const struct bte *)b)->key);
+    return h_cmp_result(((const struct bte *)a)->key, ((const struct bte *)b)->key);
 }
 
 static int cmp_rb(const void * a, const void * b, void * p)
 {
     h_priv_check(p, 2);
-    return (((const struct rbe *)a)->key > ((const struct rbe *)b)->key)
-           - (((const struct rbe *)a)->key < ((const struct rbe *)b)->key);
+    return h_cmp_result(((const struct rbe *)a)->key, ((const struct rbe *)b)->key);
 }
 
 static int cmp_key(const void * a, const void * b, void * p)
 {
     const int x = a ? *(const int *)a : 0, y = b ? *(const int *)b : 0;
     h_priv_check(p, 3);
-    return (x > y) - (x < y);
+    return h_cmp_result(x, y);
 }
 
 #define MAXEV (3 * NE + 8)
